@@ -877,6 +877,18 @@ class CodeAreaEval:
                          for k in range(70001)]
         self.comp_all = [BV.source(('mem', 'comp', k), 8)
                          for k in range(0x3d20)]
+        # does the real compressor append to its first parameter?
+        import ast as _ast
+        self.comp_appends = False
+        try:
+            cf = ctx.model.func('pico8.game.compress:compress_code')
+            p0 = cf.params()[0] if cf.params() else None
+            self.comp_appends = any(
+                isinstance(n, _ast.AugAssign) and isinstance(
+                    n.target, _ast.Name) and n.target.id == p0
+                for n in _ast.walk(cf.node))
+        except Exception:
+            pass
 
     def writer_problem(self):
         """None | description of the first case in which the code area is not
@@ -888,8 +900,19 @@ class CodeAreaEval:
             n_cases += 1
             code = self.code_all[:n]
             comp = self.comp_all[:m]
-            cxi.hooks = {comp_q: (lambda cx, a, k, b, comp=comp:
-                                  CX.Seq('bytes', list(comp)))}
+            mutated = []
+
+            def fake_comp(cx, a, k, b, comp=comp, mutated=mutated):
+                # compress_code appends to its own parameter (`in_p += ..`
+                # for code that mentions _update60): in place when it is
+                # handed a mutable buffer -- the stand-in does the same
+                arg = a[0] if a else None
+                if self.comp_appends and isinstance(arg, CX.Seq) and \
+                        arg.kind == 'bytearray':
+                    arg.items.extend([0x0a, 0x69, 0x66])
+                    mutated.append(True)
+                return CX.Seq('bytes', list(comp))
+            cxi.hooks = {comp_q: fake_comp}
 
             def go():
                 return cxi.call_function(
@@ -914,6 +937,10 @@ class CodeAreaEval:
             fits = len(want) <= self.AREA
             what = 'code of {} bytes, compressed stream of {} bytes ({})' \
                 .format(n, m, 'stored compressed' if m < n else 'stored raw')
+            if mutated:
+                what += (' [the compressor was handed a mutable buffer and '
+                         'appended to it in place, as compress_code does '
+                         'for code that mentions _update60]')
             if not fits:
                 if kind != 'raise':
                     return ('{}: {} bytes do not fit the {}-byte code area, '
